@@ -238,6 +238,35 @@ def check_walk(ctx, case):
                           {**case, "path": s, "msgs": []}, "reject", node_json(wbad))
             return
 
+    # ---- the same relative path taken from several nodes of one wallet (account 0' and 1', then `m/0/0` from each),
+    # repeatedly and interleaved: each result must be the step-by-step derivation from ITS starting node
+    if len(steps) >= 2:
+        rel = steps[1:]
+        rel_s = render_path(rel)
+        i0, h0 = steps[0]
+        starts = [(i0, h0), ((i0 + 1) % HARD, h0), (i0, not h0)]
+        seen = {}
+        for rnd in range(2):
+            for (a, ha) in starts:
+                st, base = attempt(lambda: root.derive(a, private=True, hardened=ha))
+                if st != "ok":
+                    continue
+                exp = base
+                for (i, h) in rel:
+                    exp = exp.derive(i, private=True, hardened=h)
+                st, got = attempt(lambda: base.derive_from_path(rel_s))
+                if st != "ok" or node_json(got) != node_json(exp):
+                    ctx.violation("derive_from_path from an intermediate node differs from step-by-step derivation from that node",
+                                  {**case, "start": [str(a), ha], "path": rel_s, "round": rnd, "msgs": []},
+                                  node_json(exp), node_json(got) if st == "ok" else "reject")
+                    return
+                seen[(a, ha)] = node_json(got)["pub"] if isinstance(node_json(got), dict) and "pub" in node_json(got) else str(node_json(got))
+        if len(set(seen.values())) != len(seen):
+            ctx.violation("distinct starting nodes gave the same descendant for one relative path", {**case, "path": rel_s, "msgs": []},
+                          "pairwise distinct", sorted(seen.values()))
+            return
+        ctx.count("relative-path-from-several-nodes")
+
     # ---- signatures of the derived key -------------------------------------------------------------------------
     for mh in case["msgs"]:
         msg = bytes.fromhex(mh)
